@@ -81,7 +81,7 @@ Inductive literal :=
 | LF64 (bits : N) | LF32 (bits : N) | LU32 (v : N) | LI32 (v : Z) | LU64 (v : N) | LI64 (v : Z)
 | LBool (b : bool) | LAbstractInt (v : Z) | LAbstractFloat (bits : N).
 
-Inductive gexpr := GLiteral (l : literal) | GOther.
+Inductive gexpr := GLiteral (l : literal) | GZero (* Expression::ZeroValue of the constant's type *) | GOther.
 
 Record constant := mkConstant { c_name : option string; c_ty : nat; c_init : gexpr }.
 
